@@ -287,7 +287,7 @@ def run(ctx):
             out, tree, errs = lc.run_call(p, tb, c12.doc_call(h["doc"], h["fail"], h["strict"]))
             q = lc.new_parser(tb)
             lc.run_call(q, tb, c12.doc_call(h["doc"], h["fail"], False))
-            got = {"out": out, "errors": [e[0] for e in errs]}
+            got = {"out": lc.model_out(c12.doc_call(h["doc"], 0, False), out), "errors": [e[0] for e in errs]}
             if got != {"out": h["out"], "errors": h["errors"]}:
                 ctx.violation("real parser differs from the lifecycle machine (outcome / errors of one call)",
                               {"kind": "call", "treebuilder": tb, "call": c12.describe(rec["hist"]), "expected": h, "got": got})
